@@ -51,6 +51,7 @@ ALPHA_FULL = [(s, r) for s in L.SEND_STATES for r in L.REPLIES] + \
              [(s, None) for s in L.QUIET_STATES + L.CANT_SEND + L.DEAD_STATES]
 ALPHA_SMALL = [('idle', 'supported'), ('idle', 'silence'), ('idle', 'error'), ('idle', 'conn_error'),
                ('pending', 'supported'), ('busy', None), ('defunct', None)]
+ALPHA_TINY = [('idle', 'supported'), ('idle', 'silence'), ('idle', 'error'), ('busy', None), ('defunct', None)]
 ALPHA_MID = ALPHA_SMALL + [('idle', 'peer_close'), ('pending', 'silence'), ('event', None), ('full', None), ('closed', None)]
 
 
@@ -95,13 +96,16 @@ def e_plan(ctx):
     """[(label, kind, layout, alphabet, rounds, lifos)]"""
     plan = [('1conn-pool', 'fake', [0], ALPHA_FULL, 2, (False,)),
             ('1conn-control', 'fake', [1], ALPHA_FULL, 2, (False,)),
-            ('2conn-pool+control', 'fake', [0, 1], ALPHA_FULL, 2, (False, True)),
-            ('2conn-one-pool', 'fake', [0, 0], ALPHA_MID, 2, (False, True)),
-            ('3conn', 'fake', [0, 0, 1], ALPHA_SMALL, 2, (False,)),
-            ('real-cluster', 'real', [0, 1, 2], ALPHA_SMALL, 2, (False,))]
+            ('2conn-pool+control', 'fake', [0, 1], ALPHA_FULL, 2, (False,)),
+            ('2conn-pool+control-newest-first', 'fake', [0, 1], ALPHA_MID, 2, (True,)),
+            ('2conn-one-pool', 'fake', [0, 0], ALPHA_SMALL, 2, (False, True)),
+            ('real-cluster', 'real', [0, 1, 2], ALPHA_TINY, 2, (False,)),
+            ('3conn', 'fake', [0, 0, 1], ALPHA_TINY if ctx.quick else ALPHA_SMALL, 2, (False,))]
     if ctx.thorough:
-        plan += [('1conn-pool-3rounds', 'fake', [0], ALPHA_FULL, 3, (False,)),
+        plan += [('real-cluster-small', 'real', [0, 1, 2], ALPHA_SMALL, 2, (False,)),
+                 ('1conn-pool-3rounds', 'fake', [0], ALPHA_FULL, 3, (False,)),
                  ('2conn-pool+control-3rounds', 'fake', [0, 1], ALPHA_MID, 3, (False, True)),
+                 ('2conn-pool+control-full-newest-first', 'fake', [0, 1], ALPHA_FULL, 2, (True,)),
                  ('2conn-one-pool-full', 'fake', [0, 0], ALPHA_FULL, 2, (False, True)),
                  ('3conn-mid', 'fake', [0, 0, 1], ALPHA_MID, 2, (False, True)),
                  ('real-cluster-mid', 'real', [0, 1, 2], ALPHA_MID, 2, (False,))]
@@ -111,16 +115,17 @@ def e_plan(ctx):
 def e_judge(kind, params, part):
     x = (L.run_real if kind == 'real' else L.run_history)(params)
     part.count('executions')
+    part.count('E_executions')
     part.count('evaluations')
     part.count('transitions', x.round + 1)              # heartbeat rounds (+ the stop) executed
     part.count('states', len(x.facts))                  # (round, connection) observation points judged
     for tail, text in x.problems:
         part.violation('C44/' + tail, '%s ; vector %r' % (text, params), {'layer': 'E', 'kind': kind, 'params': params})
     for f in x.flags:
-        part.count('with_' + f)
-    facts = tuple(sorted(set(f for _, _, f in x.facts)))
+        part.count('E_with_' + f)
+    facts = tuple(sorted(set(str(f) for _, _, f in x.facts)))
     part.outcome(facts)
-    if x.flags - {'busy'}:
+    if x.flags - {'fresh'}:
         part.mark_nontrivial(_h(params))
     return x
 
@@ -138,24 +143,24 @@ def _freeze_once():
 
 
 def e_chunk(args):
-    kind, vecs = args
+    kind, vecs, want_sample = args
     part = Part()
     _freeze_once()
     import gc
     was = gc.isenabled()
     gc.disable()
     try:
-        return _e_chunk(kind, vecs, part)
+        return _e_chunk(kind, vecs, part, want_sample)
     finally:
         gc.collect()
         if was:
             gc.enable()
 
 
-def _e_chunk(kind, vecs, part):
+def _e_chunk(kind, vecs, part, want_sample):
     for params in vecs:
         x = e_judge(kind, params, part)
-        if len(part.samples) < 1 and ('timeout_failure' in x.flags or 'failure' in x.flags):
+        if want_sample and len(part.samples) < 1 and 'timeout_failure' in x.flags and 'failure' in x.flags:
             part.sample({'layer': 'E', 'kind': kind, 'vector': params, 'observed': x.facts,
                          'owner_notified(round,conn,holder)': x.returned})
     return part
@@ -174,28 +179,42 @@ def s_sequences(nrounds):
 
 
 def s_configs(ctx):
+    """'cost': 'preemptions' = CHESS preemption bounding (every switch at a blocking point is free);
+    'deviations' = every non-default scheduling decision counts, except what happens while the heartbeat thread
+    waits for an answer (answer first / client first / the wait times out) and the reactor's delivery order."""
     cfgs = []
     one = s_sequences(2)
+    P, D = 'preemptions', 'deviations'
     for seq in one:
-        cfgs.append({'replies': [seq], 'layout': [0], 'client': None, 'stop': 'after'})
-        cfgs.append({'replies': [seq], 'layout': [0], 'client': {'conn': 0, 'when': 1}, 'stop': 'after'})
-    cfgs.append({'replies': [['supported', 'supported']], 'layout': [1], 'client': {'conn': 0, 'when': 2}, 'stop': 'after'})
-    cfgs.append({'replies': [['supported', 'silence']], 'layout': [0], 'client': {'conn': 0, 'when': 2}, 'stop': 'after'})
+        # answer in time / late / never, no client
+        cfgs.append({'replies': [seq], 'layout': [0], 'client': None, 'stop': 'after', 'cost': P})
+        # client request on the same connection; the wait for the answer times out only when nothing else can run
+        cfgs.append({'replies': [seq], 'layout': [0], 'client': {'conn': 0, 'when': 1}, 'stop': 'after', 'cost': P, 'timeouts_last': True})
+        # client request and answers arriving late
+        cfgs.append({'replies': [seq], 'layout': [0], 'client': {'conn': 0, 'when': 1}, 'stop': 'after', 'cost': D})
+    cfgs.append({'replies': [['supported', 'supported']], 'layout': [1], 'client': {'conn': 0, 'when': 2}, 'stop': 'after', 'cost': D})
+    cfgs.append({'replies': [['supported', 'silence']], 'layout': [0], 'client': {'conn': 0, 'when': 2}, 'stop': 'after', 'cost': D})
     # two connections sharing one wait budget: who is silent / late / failing first
     pairs = [(['silence'], ['supported']), (['supported'], ['silence']), (['error'], ['supported']),
              (['supported'], ['conn_error']), (['supported'], ['supported'])]
     for a, b in pairs:
-        cfgs.append({'replies': [a, b], 'layout': [0, 1], 'client': None, 'stop': 'after'})
-    cfgs.append({'replies': [['supported'], ['supported']], 'layout': [0, 0], 'client': {'conn': 1, 'when': 1}, 'stop': 'after'})
+        cfgs.append({'replies': [a, b], 'layout': [0, 1], 'client': None, 'stop': 'after', 'cost': P if ctx.thorough else D})
     # stop() at any moment
-    cfgs.append({'replies': [['supported', 'supported']], 'layout': [0], 'client': None, 'stop': 'any'})
-    cfgs.append({'replies': [['silence', 'supported']], 'layout': [0], 'client': None, 'stop': 'any'})
+    cfgs.append({'replies': [['supported']], 'layout': [0], 'client': None, 'stop': 'any', 'cost': P})
+    cfgs.append({'replies': [['silence', 'supported']], 'layout': [0], 'client': None, 'stop': 'any', 'cost': P})
     if ctx.thorough:
+        cfgs.append({'replies': [['supported'], ['supported']], 'layout': [0, 0], 'client': {'conn': 1, 'when': 1}, 'stop': 'after', 'cost': D})
+        cfgs.append({'replies': [['supported', 'supported']], 'layout': [0], 'client': None, 'stop': 'any', 'cost': P})
+        # one round with a client request, every switch at a blocking point and every timeout moment free (the largest trees)
+        for r in L.S_REPLIES:
+            cfgs.append({'replies': [[r]], 'layout': [0], 'client': {'conn': 0, 'when': 1}, 'stop': 'after', 'cost': P, 'b1': True})
+        cfgs.append({'replies': [['supported'], ['supported']], 'layout': [0, 0], 'client': {'conn': 1, 'when': 1}, 'stop': 'after',
+                     'cost': P, 'timeouts_last': True, 'b1': True})
         for seq in one:
-            cfgs.append({'replies': [seq], 'layout': [0], 'client': {'conn': 0, 'when': 2}, 'stop': 'after'})
+            cfgs.append({'replies': [seq], 'layout': [0], 'client': {'conn': 0, 'when': 2}, 'stop': 'after', 'cost': D, 'b1': True})
         for a, b in itertools.product(L.S_REPLIES, repeat=2):
-            cfgs.append({'replies': [[a], [b]], 'layout': [0, 1], 'client': {'conn': 0, 'when': 1}, 'stop': 'after'})
-        cfgs.append({'replies': [['supported', 'supported']], 'layout': [0], 'client': {'conn': 0, 'when': 1}, 'stop': 'any'})
+            cfgs.append({'replies': [[a], [b]], 'layout': [0, 1], 'client': {'conn': 0, 'when': 1}, 'stop': 'after', 'cost': D, 'b1': True})
+        cfgs.append({'replies': [['supported', 'supported']], 'layout': [0], 'client': {'conn': 0, 'when': 1}, 'stop': 'any', 'cost': D, 'b1': True})
     seen, out = set(), []
     for c in cfgs:
         if repr(c) not in seen:
@@ -212,11 +231,12 @@ def s_harness(params, prefix, part):
     for tail, text in x.problems:
         part.violation('C44/' + tail, '%s ; config %r' % (text, params), data)
     for f in x.flags:
-        part.count('with_' + f)
+        part.count('S_with_' + f)
     part.count('evaluations')
+    part.count('S_executions')
     part.count('states', len(x.heartbeats) + 1)
-    part.outcome(('S', tuple(sorted((h['kind'], h['wait']) for h in x.heartbeats)), x.client_state))
-    if any(p.chosen for p in s.trace) and (x.flags - {'busy'}):
+    part.outcome(('S', tuple(sorted((h['kind'], str(h['wait'])) for h in x.heartbeats)), x.client_state))
+    if any(p.chosen for p in s.trace) and (x.flags - {'fresh'}):
         part.mark_nontrivial(_h((params, s.choices())))
     if 'late_supported' in x.flags or 'client_overlaps_heartbeat' in x.flags:
         part.sample({'layer': 'S', 'config': params, 'choices': s.choices(), 'flags': sorted(x.flags),
@@ -224,50 +244,103 @@ def s_harness(params, prefix, part):
     return s
 
 
-def s_chunk(args):
-    cfgs, bound, cap = args
+def cfg_name(c):
+    cl = c.get('client')
+    return '%s|%s|%s|%s|%s%s' % ('+'.join(','.join(r) for r in c['replies']), ''.join('pc'[h] for h in c['layout']),
+                               'client c%d from round %d' % (cl['conn'], cl['when']) if cl else 'no client',
+                               'stop ' + c.get('stop', 'after'), c['cost'], '|timeouts last' if c.get('timeouts_last') else '')
+
+
+def s_explore(params, prefixes, bound, cap, part):
+    """all executions below the given choice prefixes (disjoint subtrees of one configuration's choice tree)"""
+    frontier = list(prefixes)
+    n = 0
+    kids_of_root = None
+    while frontier:
+        nxt = []
+        for prefix in frontier:
+            if cap is not None and n >= cap:
+                part.cap('S config %r: cap of %d executions per subtree batch reached at bound %d' % (params, cap, bound))
+                return n
+            s = s_harness(params, prefix, part)
+            n += 1
+            part.count('cfg:' + cfg_name(params))
+            part.count('executions')
+            part.count('transitions', s.steps)
+            nxt.extend(k for k, _ in sched.children(s.trace, len(prefix), bound))
+        frontier = nxt
+    return n
+
+
+def s_root(args):
+    """run the default schedule of a configuration; hand back its first-level alternatives"""
+    params, bound = args
     part = Part()
     _freeze_once()
-    for params in cfgs:
-        frontier = [[]]
-        n = 0
-        while frontier:
-            nxt = []
-            for prefix in frontier:
-                if cap is not None and n >= cap:
-                    part.cap('S config %r: execution cap %d reached at preemption bound %d' % (params, cap, bound))
-                    nxt = []
-                    break
-                s = s_harness(params, prefix, part)
-                n += 1
-                part.count('executions')
-                part.count('transitions', s.steps)
-                nxt.extend(k for k, _ in sched.children(s.trace, len(prefix), bound))
-            frontier = nxt
+    s = s_harness(params, [], part)
+    part.count('cfg:' + cfg_name(params))
+    part.count('executions')
+    part.count('transitions', s.steps)
+    return part, [k for k, _ in sched.children(s.trace, 0, bound)]
+
+
+def s_chunk(args):
+    params, prefixes, bound, cap = args
+    part = Part()
+    _freeze_once()
+    s_explore(params, prefixes, bound, cap, part)
     return part
 
 
 # ---------------------------------------------------------------------------- run / replay
 def run(ctx):
+    import os
     connlib.quiet_driver_logs()
     L.selftest()
+    layers = os.environ.get('VERIF_C44_LAYERS', 'E,S').split(',')      # development aid; the default runs both
+    ctx.cov['harnesses'] = {}
     # E layer
     jobs = []
-    for label, kind, layout, alpha, nrounds, lifos in e_plan(ctx):
-        vecs = ctx.rotate(list(e_vectors(layout, alpha, nrounds, lifos)))
-        ctx.cov.setdefault('harnesses', {})['E:' + label] = {'vectors': len(vecs), 'rounds': nrounds, 'connections': len(layout),
-                                                             'alphabet': len(alpha), 'holders': kind}
-        size = 400 if kind == 'fake' else 100
-        jobs += [(kind, vecs[i:i + size]) for i in range(0, len(vecs), size)]
+    if 'E' in layers:
+        for n, (label, kind, layout, alpha, nrounds, lifos) in enumerate(e_plan(ctx)):
+            vecs = ctx.rotate(list(e_vectors(layout, alpha, nrounds, lifos)))
+            ctx.cov['harnesses']['E:' + label] = {'vectors': len(vecs), 'rounds': nrounds, 'connections': len(layout),
+                                                  'alphabet': len(alpha), 'holders': kind}
+            size = 400 if kind == 'fake' else 100
+            jobs += [(kind, vecs[i:i + size], i == 0 and n in (0, 5)) for i in range(0, len(vecs), size)]
+    t0 = ctx.elapsed()
     for part in ctx.pmap(e_chunk, jobs):
         ctx.merge(part)
-    # S layer
-    bound = 1 if ctx.quick else 2
-    cfgs = ctx.rotate(s_configs(ctx))
-    cap = None if ctx.quick else 60000
-    ctx.cov['harnesses']['S'] = {'configs': len(cfgs), 'preemption_bound': bound}
-    for part in ctx.pmap(s_chunk, [([c], bound, cap) for c in cfgs]):
-        ctx.merge(part)
+    ctx.cov['wall_s_E_layer'] = round(ctx.elapsed() - t0, 1)
+    # S layer: roots first, then the subtrees below every first-level alternative spread over the workers.
+    # Bound 1 is always explored completely; the thorough tier adds a (capped) bound-2 pass over the smaller trees.
+    cfgs = ctx.rotate(s_configs(ctx)) if 'S' in layers else []
+    passes = [(cfgs, 1, None)]
+    if ctx.thorough:
+        passes.append(([c for c in cfgs if not c.get('b1')], 2, 1500))     # cap: executions per batch of 8 subtrees
+    info = ctx.cov['harnesses']['S'] = {'configs': len(cfgs),
+                                        'preemption_bounded_configs': sum(1 for c in cfgs if c['cost'] == 'preemptions'),
+                                        'deviation_bounded_configs': sum(1 for c in cfgs if c['cost'] == 'deviations'), 'passes': []}
+    bound = 0
+    for pcfgs, bound, cap in passes:
+        before = ctx.counters.get('executions', 0)
+        t1 = ctx.elapsed()
+        roots = ctx.pmap(s_root, [(c, bound) for c in pcfgs])
+        jobs = []
+        for c, (part, kids) in zip(pcfgs, roots):
+            ctx.merge(part)
+            jobs += [(c, kids[i:i + 8], bound, cap) for i in range(0, len(kids), 8)]
+        for part in ctx.pmap(s_chunk, jobs):
+            ctx.merge(part)
+        info['passes'].append({'bound': bound, 'configs': len(pcfgs), 'subtree_batches': len(jobs), 'cap_per_batch': cap,
+                               'wall_s': round(ctx.elapsed() - t1, 1), 'executions': ctx.counters.get('executions', 0) - before})
+    info['executions_per_config'] = {k[4:]: v for k, v in sorted(ctx.counters.items()) if k.startswith('cfg:')}
+    for k in [k for k in ctx.counters if k.startswith('cfg:')]:
+        del ctx.counters[k]
+    if ctx.caps_hit:
+        ctx.assume('bound-2 pass of the S layer is capped per subtree batch; the bound-1 pass is complete for every configuration')
+    if layers != ['E', 'S']:
+        ctx.cap('development run restricted to layers %r' % (layers,))
     ctx.cov['preemption_bound'] = bound
     ctx.cov['rule'] = ('E: one execution per (situation x answer) vector, states = (round, connection) observation points judged, '
                        'transitions = heartbeat rounds executed; S: one execution per schedule within the preemption bound, transitions '
